@@ -217,3 +217,117 @@ Theorem C14_ctor_geometric_open_interval :
   ctor (numR erf erfinv gammaf lgammaf) false CGeometric true [PF 1%R] = Err (Raise EValue).
 Proof. exact repaired_geometric_rejects_p_zero_and_one. Qed.
 Print Assumptions C14_ctor_geometric_open_interval.
+
+(* ====================================================================== *)
+(* The model regenerated from the source text IS the model of the theorems above.
+
+   Dist/Gen_Dist.v is produced on every run by translator/py2gallina_dist.py
+   from src/pydsol/core/distributions.py of the tree under test (Python `ast`,
+   fail-closed: constructors with their validation, derived fields and inner
+   DistGamma instances, draw() with its helper methods and loops for all 19
+   classes); Dist/GenAgree.v proves every generated definition equal to the
+   hand-written one, for every number structure.  So the theorems of this file
+   are theorems about what distributions.py says now; they are restated here
+   for the generated definitions.  [gen_draw_c] returns the two attributes of
+   DistNormal's cached gaussian where the model has an option ([cache_of]);
+   [dist_consistent] (k < 10 iff no inner gamma in a DistErlang) holds for
+   everything a constructor builds. *)
+From PV Require Import Dist.Gen_Dist Dist.GenAgree.
+
+Theorem C14_generated_model_is_the_proved_model : forall N : num,
+  (forall c sok ps, gen_ctor N c sok ps = ctor N false c sok ps) /\
+  (forall us, gen_Distribution__next_open_float N us = next_pos N us) /\
+  (forall shape scale us, gen_DistGamma_draw N shape scale us = draw_gamma N false shape scale us) /\
+  (forall d st us, dist_consistent N d ->
+     draw_c N false d (cache_of st) us = ms_view_c (gen_draw_c N d st us)) /\
+  (forall c sok ps d, ctor N false c sok ps = Val d -> dist_consistent N d) /\
+  (forall sok mu sigma d st,
+     gen_DistNormal___init__ N sok mu sigma = Val (d, st) \/ gen_DistLogNormal___init__ N sok mu sigma = Val (d, st) ->
+     cache_of st = None).
+Proof. exact dist_draw_generated_agree. Qed.
+Print Assumptions C14_generated_model_is_the_proved_model.
+
+(* C14_draw_determined_by_consumed_uniforms, for the generated draw *)
+Theorem C14_generated_draw_determined_by_consumed_uniforms :
+  forall (N : num) d st us r st' rest,
+  dist_consistent N d ->
+  gen_draw_c N d st us = (r, st', rest) ->
+  exists used, us = used ++ rest /\
+    (r <> Err NoUniform ->
+     forall ext, ms_view_c (gen_draw_c N d st (used ++ ext)) = (r, cache_of st', ext)).
+Proof.
+  intros N d st us r st' rest C H.
+  pose proof (gen_draw_c_eq N d st us C) as E. rewrite H in E. cbn in E.
+  destruct (C14_draw_determined_by_consumed_uniforms N false d (cache_of st) us r (cache_of st') rest E) as [used [U K]].
+  exists used. split; [exact U|]. intros NE ext. rewrite <- gen_draw_c_eq by exact C. apply K. exact NE.
+Qed.
+Print Assumptions C14_generated_draw_determined_by_consumed_uniforms.
+
+(* C14_support_and_totality_open_partial, for the generated draw *)
+Theorem C14_generated_support_and_totality_open_partial :
+  forall (erf erfinv gammaf lgammaf : R -> R) d st us,
+  wf d -> dist_consistent (numR erf erfinv gammaf lgammaf) d -> Forall open01 us ->
+  match gen_draw_c (numR erf erfinv gammaf lgammaf) d st us with
+  | (Val v, _, _) => in_support d v
+  | (Err e, _, _) => e = NoUniform
+  end.
+Proof.
+  intros erf erfinv gammaf lgammaf d st us W C U.
+  pose proof (C14_support_and_totality_open_partial erf erfinv gammaf lgammaf d (cache_of st) us W U) as HS.
+  pose proof (draw_c_result (numR erf erfinv gammaf lgammaf) false d (cache_of st) us) as R.
+  rewrite (gen_draw_c_eq (numR erf erfinv gammaf lgammaf) d st us C) in R.
+  destruct (draw (numR erf erfinv gammaf lgammaf) false d (cache_of st) us) as [[[v c]|e] r];
+    destruct (gen_draw_c (numR erf erfinv gammaf lgammaf) d st us) as [[[v'|e'] st'] r']; cbn in R;
+    try contradiction; destruct R as [R1 R2]; subst; first [exact HS | reflexivity].
+Qed.
+Print Assumptions C14_generated_support_and_totality_open_partial.
+
+Theorem C14_generated_support_and_totality_half_open_partial :
+  forall (erf erfinv gammaf lgammaf : R -> R) d st us,
+  wf d -> dist_consistent (numR erf erfinv gammaf lgammaf) d -> divides d = false -> Forall half_open us ->
+  match gen_draw_c (numR erf erfinv gammaf lgammaf) d st us with
+  | (Val v, _, _) => in_support d v
+  | (Err e, _, _) => e = NoUniform
+  end.
+Proof.
+  intros erf erfinv gammaf lgammaf d st us W C D U.
+  pose proof (C14_support_and_totality_half_open_partial erf erfinv gammaf lgammaf d (cache_of st) us W D U) as HS.
+  pose proof (draw_c_result (numR erf erfinv gammaf lgammaf) false d (cache_of st) us) as R.
+  rewrite (gen_draw_c_eq (numR erf erfinv gammaf lgammaf) d st us C) in R.
+  destruct (draw (numR erf erfinv gammaf lgammaf) false d (cache_of st) us) as [[[v c]|e] r];
+    destruct (gen_draw_c (numR erf erfinv gammaf lgammaf) d st us) as [[[v'|e'] st'] r']; cbn in R;
+    try contradiction; destruct R as [R1 R2]; subst; first [exact HS | reflexivity].
+Qed.
+Print Assumptions C14_generated_support_and_totality_half_open_partial.
+
+(* C14_ctor_rejects_outside_domain / C14_ctor_usable_inside_domain, for the generated constructors;
+   what they build is consistent in the sense the draw theorems above ask for *)
+Theorem C14_generated_ctor_rejects_outside_domain :
+  forall (erf erfinv gammaf lgammaf : R -> R) c sok ps d,
+  gen_ctor (numR erf erfinv gammaf lgammaf) c sok ps = Val d ->
+  sok = true /\ dom erf erfinv gammaf lgammaf c ps /\ wf d /\ dist_consistent (numR erf erfinv gammaf lgammaf) d.
+Proof.
+  intros erf erfinv gammaf lgammaf c sok ps d H. rewrite gen_ctor_eq in H.
+  destruct (C14_ctor_rejects_outside_domain erf erfinv gammaf lgammaf c sok ps d H) as [A [B C]].
+  repeat split; try assumption. exact (ctor_consistent (numR erf erfinv gammaf lgammaf) c sok ps d H).
+Qed.
+Print Assumptions C14_generated_ctor_rejects_outside_domain.
+
+Theorem C14_generated_ctor_usable_inside_domain :
+  forall (erf erfinv gammaf lgammaf : R -> R) c ps,
+  dom erf erfinv gammaf lgammaf c ps ->
+  exists d, gen_ctor (numR erf erfinv gammaf lgammaf) c true ps = Val d.
+Proof.
+  intros erf erfinv gammaf lgammaf c ps H.
+  destruct (C14_ctor_usable_inside_domain erf erfinv gammaf lgammaf c ps H) as [d E].
+  exists d. rewrite gen_ctor_eq. exact E.
+Qed.
+Print Assumptions C14_generated_ctor_usable_inside_domain.
+
+(* non-vacuity: the generated Erlang constructor builds a consistent instance on which the
+   generated draw runs (PrimFloat, empty oracle table: it stops at the first libm call) *)
+Example C14_generated_example :
+  exists d, gen_ctor (numF []) CErlang true [PF 2%float; PI 3%Z] = Val d /\ dist_consistent (numF []) d /\
+            fst (fst (gen_draw_c (numF []) d (false, 0%float) [0x1p-1%float; 0x1p-2%float; 0x1p-3%float]))
+            = Err (Miss FLog (fenc 0x1p-6%float ++ fenc 0%float)).
+Proof. eexists. split; [vm_compute; reflexivity|]. split; [vm_compute; reflexivity|vm_compute; reflexivity]. Qed.
